@@ -128,6 +128,51 @@ pub(crate) enum Instruction {
     WritePath(Vec<String>),
 }
 
+#[cfg(tera_verif)]
+impl Instruction {
+    /// (opcode, jump target 1-based or 0, operand count, string operands)
+    pub(crate) fn verif_parts(&self) -> (String, i64, i64, Vec<String>) {
+        let d = format!("{:?}", self);
+        let op: String = d.chars().take_while(|c| c.is_ascii_alphanumeric()).collect();
+        let (t, n): (i64, i64) = match self {
+            Instruction::Jump(t)
+            | Instruction::PopJumpIfFalse(t)
+            | Instruction::JumpIfFalseOrPop(t)
+            | Instruction::JumpIfTrueOrPop(t)
+            | Instruction::Iterate(t) => (*t as i64 + 1, 0),
+            Instruction::BuildMap(n) => (0, 2 * *n as i64),
+            Instruction::BuildList(n) => (0, *n as i64),
+            Instruction::BuildMapWithSpreads(v) => {
+                (0, v.iter().map(|b| if *b { 1 } else { 2 }).sum::<i64>())
+            }
+            Instruction::BuildListWithSpreads(v) => (0, v.len() as i64),
+            Instruction::LoadPath(p) | Instruction::WritePath(p) => (0, p.len() as i64),
+            Instruction::StartIterate(kv) | Instruction::StartIterateComprehension(kv) => {
+                (0, if *kv { 1 } else { 0 })
+            }
+            _ => (0, 0),
+        };
+        let names: Vec<String> = match self {
+            Instruction::LoadName(s)
+            | Instruction::LoadAttr(s)
+            | Instruction::LoadAttrOpt(s)
+            | Instruction::Set(s)
+            | Instruction::SetGlobal(s)
+            | Instruction::Include(s)
+            | Instruction::CallFunction(s)
+            | Instruction::RenderInlineComponent(s)
+            | Instruction::RenderBodyComponent(s)
+            | Instruction::ApplyFilter(s)
+            | Instruction::RunTest(s)
+            | Instruction::RenderBlock(s)
+            | Instruction::StoreLocal(s) => vec![s.clone()],
+            Instruction::LoadPath(p) | Instruction::WritePath(p) => p.clone(),
+            _ => vec![],
+        };
+        (op, t, n, names)
+    }
+}
+
 #[derive(Clone, PartialEq, Default)]
 pub(crate) struct Chunk {
     /// Instructions with their associated spans.
@@ -163,6 +208,68 @@ impl Chunk {
 
     pub(crate) fn len(&self) -> usize {
         self.instructions.len()
+    }
+
+    /// JSON listing of the chunk: opcode, operands, const class, span byte ranges
+    #[cfg(tera_verif)]
+    pub(crate) fn verif_json(&self) -> String {
+        use crate::verif::json_str;
+        let mut out = String::from("[");
+        for (i, (instr, spans)) in self.instructions.iter().enumerate() {
+            if i > 0 {
+                out.push(',');
+            }
+            let d = format!("{:?}", instr);
+            let (op, t, n, names) = instr.verif_parts();
+            let sp: Vec<bool> = match instr {
+                Instruction::BuildMapWithSpreads(v) | Instruction::BuildListWithSpreads(v) => {
+                    v.clone()
+                }
+                _ => vec![],
+            };
+            let ck = match instr {
+                Instruction::LoadConst(v) => {
+                    if v.is_none() {
+                        "none"
+                    } else if v.is_string() {
+                        if v.is_truthy() { "strN" } else { "strE" }
+                    } else if v.is_array() {
+                        if v.is_truthy() { "arr" } else { "arr0" }
+                    } else if v.is_map() {
+                        if v.is_truthy() { "map" } else { "map0" }
+                    } else if v.is_truthy() {
+                        "truthy"
+                    } else {
+                        "falsy"
+                    }
+                }
+                _ => "",
+            };
+            out.push_str(&format!(
+                "{{\"op\":\"{}\",\"t\":{},\"n\":{},\"s\":{},\"c\":\"{}\",\"a\":[{}],\"sp\":[{}],\"r\":[{}],\"d\":{}}}",
+                op,
+                t,
+                n,
+                spans.len(),
+                ck,
+                names.iter().map(|x| json_str(x)).collect::<Vec<_>>().join(","),
+                sp.iter().map(|b| b.to_string()).collect::<Vec<_>>().join(","),
+                spans
+                    .iter()
+                    .map(|s| format!("[{},{}]", s.range.start, s.range.end))
+                    .collect::<Vec<_>>()
+                    .join(","),
+                json_str(&d.escape_default().to_string()),
+            ));
+        }
+        out.push(']');
+        out
+    }
+
+    /// Content hash identifying this chunk in traces and listings
+    #[cfg(tera_verif)]
+    pub(crate) fn verif_hash(&self) -> u32 {
+        crate::verif::hash31(&format!("{:?}", self))
     }
 
     pub(crate) fn is_calling_function(&self, fn_name: &str) -> bool {
@@ -207,6 +314,10 @@ impl Chunk {
     /// Optimize bytecode by combining common instruction patterns to avoid pushing/popping
     /// so much on the stack in the VM when we can
     pub(crate) fn optimize(&mut self) {
+        #[cfg(tera_verif)]
+        if !crate::verif::optimize_enabled() {
+            return;
+        }
         let mut old_instructions = std::mem::take(&mut self.instructions);
         let mut optimized = Vec::with_capacity(old_instructions.len());
         // Map from old instruction index to new instruction index
